@@ -541,8 +541,16 @@ func (w *Writer) writeReflect(v interface{}) error {
 		return nil
 
 	default:
-		w.Write(v)
-		return nil
+		// 仅当解引用后的值是 Write 可直接处理的基础类型时才交回 Write；
+		// 其余类型（int、具名类型、map、nil 接口等）若再交回 Write 会在 Write 与 writeReflect 之间无限递归直至栈溢出
+		if rv.IsValid() && rv.CanInterface() {
+			switch val := rv.Interface().(type) {
+			case bool, int8, uint8, int16, uint16, int32, uint32, int64, uint64, float32, float64, string:
+				w.Write(val)
+				return nil
+			}
+		}
+		return fmt.Errorf("unsupported type for writing: %T", v)
 	}
 }
 
